@@ -16,8 +16,8 @@ Take == /\ ~done /\ i <= Len(costs)
         /\ i' = i + 1
         /\ UNCHANGED <<costs, budget, done>>
 Finish == /\ ~done /\ i > Len(costs)
-          /\ out' = Append(out, cur) /\ done' = TRUE
-          /\ UNCHANGED <<costs, budget, i, cur, used>>
+          /\ out' = Append(out, cur) /\ cur' = <<>> /\ used' = 0 /\ done' = TRUE
+          /\ UNCHANGED <<costs, budget, i>>
 Next == Take \/ Finish
 Spec == Init /\ [][Next]_vars
 
